@@ -218,13 +218,18 @@ def run_C16(ctx):
 def action_code_compare(ctx, gs, gen, texts, work):
     """The code emitted for every semantic action (default Go variant and TypeScript) against the Coq model
     EmitAction.subst_action run on the implementation's own action text and tags (from the in-process dump)."""
-    hx = lambda t: t.encode('utf8').hex() or '-'
     jobs = []          # (gname, lang, path of .y, path of generated file)
     for gi, (gname, g) in enumerate(gs):
         if gen.get((gname, 'gp'), (1, ''))[0] == 0:
             jobs.append((gname, 0, os.path.join(work, 'p%dgp' % gi, 'g.y'), os.path.join(work, 'p%dgp' % gi, 'p.go')))
         if gen.get((gname, 'ts'), (1, ''))[0] == 0:
             jobs.append((gname, 1, os.path.join(work, 'g%d.y' % gi), os.path.join(work, 'g%d.ts' % gi)))
+    return action_code_jobs(ctx, jobs, lambda gname, lang: texts.get((gname, 'gp' if lang == 0 else 'ts'), ''))
+
+
+def action_code_jobs(ctx, jobs, text_of, interface='I7'):
+    """jobs: (name, lang 0=go 1=typescript, path of the .y file, path of the file generated from it)."""
+    hx = lambda t: t.encode('utf8').hex() or '-'
     dumps = vlib.run_dump([j[2] for j in jobs])
     cmds, want = [], {}
     for ji, ((gname, lang, y, outp), d) in enumerate(zip(jobs, dumps)):
@@ -260,11 +265,11 @@ def action_code_compare(ctx, gs, gen, texts, work):
         if got != exp:
             bad += 1
             if bad <= 2:
-                t = texts.get((gname, 'gp' if lang == 0 else 'ts'), '')
+                t = text_of(gname, lang)
                 ctx.violation('no-failing-input-found' if got is None else 'counterexample',
                               'grammar %s (%s), rule %d: the code emitted for the action is %r, the model of the substitution ($$ -> value field of the left-hand side, $n -> field of symbol n) gives %r'
                               % (gname, 'go' if lang == 0 else 'typescript', ri, got, exp),
-                              dict(grammar=gname, variant='gp' if lang == 0 else 'ts', grammar_text=t, grammar_sha=vlib.sha(t), rule=ri, observed=got, expected=exp), interface='I7')
+                              dict(grammar=gname, variant='gp' if lang == 0 else 'ts', grammar_text=t, grammar_sha=vlib.sha(t), rule=ri, observed=got, expected=exp), interface=interface)
     return dict(actions_compared=n, with_dollar_references=refs, differences=bad)
 
 
